@@ -6,7 +6,8 @@
    postSubmit closures; aggregator) and by the retriever (block/retriever.go handlePotentialHeader /
    handlePotentialData; full node); here they are INPUT events.  Blocks are identified by the harness's
    ids of header.Hash() and data.DACommitment(); id 0 of a data commitment = dataHashForEmptyTxs.
-   Initial height 1 only (genesis.InitialHeight = 1).  The executor's SetFinal always succeeds.
+   Heights below genesis.InitialHeight are holes of the block store (IHole).  A failing effect (datastore
+   write or SetFinal) is the item IFault: the loop returns its error and the node shuts down cleanly.
    Definitions only; proofs are in Proofs/IncluderProofs.v. *)
 From Coq Require Import NArith List Bool.
 Import ListNotations.
@@ -44,11 +45,13 @@ Fixpoint meta_get (m : metaT) (k : mkey) : option N :=
 
 (* the externally visible effects of the includer, in order: a metadata Put (one atomic datastore
    write each: store.SetMetadata) or a call exec.SetFinal(n) *)
-Inductive eff := EPut (k : mkey) (v : N) | EFin (n : N).
+Inductive eff := EPut (k : mkey) (v : N) | EFin (n : N)
+  | EPub (n : N).   (* m.daIncludedHeight.CompareAndSwap: the height becomes visible to GetDAIncludedHeight() *)
 
 Record node := {
   (* durable *)
-  chain : list blk;      (* block store: block of height i is the (i-1)-th element; store height = length *)
+  chain : list (option blk); (* block store: block of height i is the (i-1)-th element (None: no such block —
+                                heights below the initial height); store height = length *)
   meta : metaT;          (* metadata written by the includer *)
   sv_h : marks;          (* <root>/data/cache/header/da_included.gob as of the last SaveCache *)
   sv_d : marks;          (* <root>/data/cache/data/da_included.gob *)
@@ -63,30 +66,35 @@ Record node := {
 Definition init : node :=
   {| chain := []; meta := []; sv_h := []; sv_d := []; di := 0; hm := []; dm := []; tr := [] |}.
 
-(* one effect.  incrementDAIncludedHeight: SetFinal, then Put "d", then CompareAndSwap — the volatile
-   height changes right after the Put of "d" *)
+(* one effect.  incrementDAIncludedHeight: SetFinal, then Put "d", then CompareAndSwap of the volatile
+   height — three separate effects, in this order (da_includer.go:58-73) *)
 Definition apply_eff (s : node) (e : eff) : node :=
   match e with
   | EPut k v =>
       {| chain := chain s; meta := (k, v) :: meta s; sv_h := sv_h s; sv_d := sv_d s;
-         di := match k with KD => v | _ => di s end; hm := hm s; dm := dm s; tr := e :: tr s |}
+         di := di s; hm := hm s; dm := dm s; tr := e :: tr s |}
   | EFin n =>
       {| chain := chain s; meta := meta s; sv_h := sv_h s; sv_d := sv_d s;
          di := di s; hm := hm s; dm := dm s; tr := e :: tr s |}
+  | EPub n =>
+      {| chain := chain s; meta := meta s; sv_h := sv_h s; sv_d := sv_d s;
+         di := n; hm := hm s; dm := dm s; tr := e :: tr s |}
   end.
 Definition apply_effs (s : node) (es : list eff) : node := fold_left apply_eff es s.
 
 (* DAIncluderLoop body after a signal (da_includer.go:22-47), as recursion over the stored blocks above
    the current height [n]:
    - no block left: IsDAIncluded returns (false, nil) because syncedHeight < nextHeight -> break;
+   - a hole: store.GetBlockData fails, IsDAIncluded returns the error -> break;
    - IsDAIncluded (manager.go:481-496): header mark present && (empty data || data mark present);
    - SetRollkitHeightToDAHeight (manager.go:505-535): Put rhb/<n+1>/h := header DA height,
      Put rhb/<n+1>/d := (empty ? header DA height : data DA height);
    - incrementDAIncludedHeight (da_includer.go:54-83): SetFinal(n+1), Put d := n+1, CAS. *)
-Fixpoint incl_effs (hmk dmk : marks) (bs : list blk) (n : N) : list eff :=
+Fixpoint incl_effs (hmk dmk : marks) (bs : list (option blk)) (n : N) : list eff :=
   match bs with
   | [] => []
-  | b :: r =>
+  | None :: _ => []
+  | Some b :: r =>
       match mget hmk (bh b) with
       | None => []
       | Some hda =>
@@ -94,7 +102,7 @@ Fixpoint incl_effs (hmk dmk : marks) (bs : list blk) (n : N) : list eff :=
           | None => []
           | Some dda =>
               EPut (KH (n + 1)) hda :: EPut (KT (n + 1)) dda :: EFin (n + 1) :: EPut KD (n + 1)
-              :: incl_effs hmk dmk r (n + 1)
+              :: EPub (n + 1) :: incl_effs hmk dmk r (n + 1)
           end
       end
   end.
@@ -112,18 +120,27 @@ Definition save (s : node) : node :=
   {| chain := chain s; meta := meta s; sv_h := hm s; sv_d := dm s;
      di := di s; hm := hm s; dm := dm s; tr := tr s |}.
 
+(* the process [k] effects into an includer run: what an outside observer can last have seen of it *)
+Definition dying (s : node) (k : nat) : node := apply_effs s (firstn k (include_effs s)).
+
 Inductive item :=
+| IHole                    (* a height below genesis.InitialHeight: counted by the store height, no block *)
 | IAppend (b : blk)        (* a block is committed: SaveBlockData + SetHeight (producer or syncer) *)
 | IMarkH (id da : N)       (* headerCache.SetDAIncluded(hash, da): submitter postSubmit / handlePotentialHeader *)
 | IMarkD (id da : N)       (* dataCache.SetDAIncluded(commitment, da) *)
 | IInclude                 (* a signal on daIncluderCh; the loop body runs to its break *)
 | ICrash (k : nat)         (* a signal; the process dies after [k] effects of that run (k = 0: plain crash); then NewManager *)
+| IFault (k : nat)         (* a signal; effect number k+1 of that run FAILS (datastore write / SetFinal error): the loop
+                              returns the error through errCh, the node shuts down cleanly (SaveCache); then NewManager *)
 | IRestart.                (* clean shutdown (SaveCache), then NewManager *)
 
 Definition step (s : node) (i : item) : node :=
   match i with
+  | IHole =>
+      {| chain := chain s ++ [None]; meta := meta s; sv_h := sv_h s; sv_d := sv_d s;
+         di := di s; hm := hm s; dm := dm s; tr := tr s |}
   | IAppend b =>
-      {| chain := chain s ++ [b]; meta := meta s; sv_h := sv_h s; sv_d := sv_d s;
+      {| chain := chain s ++ [Some b]; meta := meta s; sv_h := sv_h s; sv_d := sv_d s;
          di := di s; hm := hm s; dm := dm s; tr := tr s |}
   | IMarkH id da =>
       {| chain := chain s; meta := meta s; sv_h := sv_h s; sv_d := sv_d s;
@@ -132,7 +149,8 @@ Definition step (s : node) (i : item) : node :=
       {| chain := chain s; meta := meta s; sv_h := sv_h s; sv_d := sv_d s;
          di := di s; hm := hm s; dm := (id, da) :: dm s; tr := tr s |}
   | IInclude => apply_effs s (include_effs s)
-  | ICrash k => boot (apply_effs s (firstn k (include_effs s)))
+  | ICrash k => boot (dying s k)
+  | IFault k => boot (save (dying s k))
   | IRestart => boot (save s)
   end.
 
@@ -142,8 +160,10 @@ Definition run (h : list item) : node := run_from init h.
 (* ---- what the property talks about ------------------------------------------------------- *)
 Definition rep (s : node) : N := di s.                               (* GetDAIncludedHeight() *)
 Definition sheight (s : node) : N := N.of_nat (length (chain s)).    (* store.Height() *)
-Definition block_at (c : list blk) (n : N) : option blk :=
-  if (n =? 0) then None else nth_error c (N.to_nat (n - 1)).
+Definition block_at (c : list (option blk)) (n : N) : option blk :=
+  if (n =? 0) then None else match nth_error c (N.to_nat (n - 1)) with Some (Some b) => Some b | _ => None end.
+(* what GetDAIncludedHeight() returns of a process [k] effects into an includer run after history [h] *)
+Definition seen_at_death (h : list item) (k : nat) : N := di (dying (run h) k).
 
 (* every value ever stored under "d" (= every value the reported height ever took), newest first *)
 Definition dputs (t : list eff) : list N :=
@@ -163,6 +183,13 @@ Fixpoint finsok (l : list N) (m : N) : Prop :=
   match l with
   | [] => m = 0
   | x :: r => x = m /\ 0 < m /\ (finsok r m \/ finsok r (m - 1))
+  end.
+(* every publication of height n is preceded by the Put of "d" := n *)
+Fixpoint persisted_before (t : list eff) : Prop :=
+  match t with
+  | [] => True
+  | EPub n :: r => In (EPut KD n) r /\ persisted_before r
+  | _ :: r => persisted_before r
   end.
 (* every Put of "d" := n is preceded by SetFinal(n) *)
 Fixpoint asked_before (t : list eff) : Prop :=
@@ -196,10 +223,12 @@ Definition marked_h_ever (h : list item) (id : N) : bool :=
   existsb (fun i => match i with IMarkH i' _ => (i' =? id) | _ => false end) h.
 Definition marked_d_ever (h : list item) (id : N) : bool :=
   existsb (fun i => match i with IMarkD i' _ => (i' =? id) | _ => false end) h.
-Definition blocks_marked_ever (h : list item) (n : N) : bool :=
-  forallb (fun b => marked_h_ever h (bh b) && (bempty b || marked_d_ever h (bd b)))
+Definition blocks_marked_ever (h : list item) (n : N) : bool :=      (* holes are not blocks *)
+  forallb (fun ob => match ob with None => true | Some b =>
+                     marked_h_ever h (bh b) && (bempty b || marked_d_ever h (bd b)) end)
           (firstn (N.to_nat n) (chain (run h))).
 (* the guard of the liveness theorem: ... and each of these marks was produced after the last crash *)
-Definition blocks_marked_since_crash (h : list item) (n : N) : bool :=
-  forallb (fun b => marked_h_since_crash (rev h) (bh b) && (bempty b || marked_d_since_crash (rev h) (bd b)))
+Definition blocks_marked_since_crash (h : list item) (n : N) : bool :=   (* ... and there is no hole up to n *)
+  forallb (fun ob => match ob with None => false | Some b =>
+                     marked_h_since_crash (rev h) (bh b) && (bempty b || marked_d_since_crash (rev h) (bd b)) end)
           (firstn (N.to_nat n) (chain (run h))).
